@@ -452,7 +452,7 @@ def loops(res, facts):
     res.extra['loops'] = n
 
 
-def counted_loop(f, body):
+def counted_loop(f, body, details=False):
     """`while i < B { ...; i += c }`: some exit switch tests a comparison of local i with an operand not assigned in
     the loop, and i is only ever assigned `i + c` (c >= 1 constant) inside the loop"""
     assigned = {}
@@ -507,8 +507,11 @@ def counted_loop(f, body):
                             if incremented(cl):
                                 inv = y['k'] == 'const' or (y['k'] in ('copy', 'move') and all(not incremented(z) for z in [y['place']['l']]))
                                 if inv:
+                                    if details:
+                                        bound = int(y['c']['val']['int']) if y['k'] == 'const' and 'int' in y['c'].get('val', {}) else None
+                                        return (cl, bound, rv['op'])
                                     return True
-    return False
+    return None if details else False
 
 
 def leads_out(f, b, body, depth=4):
